@@ -76,6 +76,9 @@ class Report:
         return the exit code"""
         known = [k for k in load_known() if k.get("property") == self.pid and k.get("status", "open") == "open"]
         os.makedirs(REPLAYS, exist_ok=True)
+        import glob
+        for old in glob.glob(os.path.join(REPLAYS, "%s-*.json" % self.pid)):
+            os.remove(old)
         n_viol = 0
         n_known = 0
         lines = []
